@@ -27,8 +27,10 @@ FindZcClauses(e) ==
 (* tgBoundariesToZeroCrossings: pre/ret are sequences of tiers [kind, name, times (Seq of Seq of time), labels] *)
 TgZcClauses(e) ==
   LET M == e.M IN
-  [ \* the search may give up with its documented error (completeness is not claimed); nothing else may go wrong
-    C18_tgzc_succeeds |-> OkZ(e) \/ e.st = "FindZeroCrossingError",
+  [ \* the search may give up with its documented error (completeness is not claimed), and both ends of an interval (or the
+    \* end of one and the start of the next) may snap to the same crossing, which the tier constructor rejects instead of
+    \* returning an ill-formed tier (e.collapse: recomputed boundary by boundary by the harness); nothing else may go wrong
+    C18_tgzc_succeeds |-> OkZ(e) \/ e.st = "FindZeroCrossingError" \/ (e.st = "TextgridStateError" /\ e.collapse),
     C18_tgzc_tier_order_and_names_kept |-> OkZ(e) => [i \in 1..Len(e.ret) |-> <<e.ret[i].kind, e.ret[i].name>>] = [i \in 1..Len(e.pre) |-> <<e.pre[i].kind, e.pre[i].name>>],
     C18_tgzc_entry_counts_and_labels_kept |-> (OkZ(e) /\ Len(e.ret) = Len(e.pre)) => \A i \in 1..Len(e.pre) :
         IF e.pre[i].kind = "I" THEN e.ret[i].labels = e.pre[i].labels
